@@ -610,6 +610,12 @@ def check(ctx):
     for started, finished in BRACKETS:
         s_sites = [(fi, c) for fi, c, ev in sites if ev == started]
         f_sites = [(fi, c) for fi, c, ev in sites if ev == finished]
+        if not s_sites and not f_sites and any(isinstance(n_, ast.Attribute) and n_.attr in (started, finished) for f_ in _man_methods for n_ in ast.walk(f_.node)):
+            # both events are named by the manager but raised through a helper that takes them as arguments (a context
+            # manager for the pair): no raise site to read - the pairing is decided by the interpreted scenarios
+            # (connect_bracket_under_reset: started ... finished on every exit, a reset in between included)
+            ctx.note(f"I5: {started} / {finished} are raised through a helper - the bracket is decided on the manager model only")
+            continue
         ctx.ob("I5", f"{started}::raised", bool(s_sites), f"{started} is never raised")
         for fi, c in s_sites:
             tries = [t for t in walk_no_nested(fi.node) if isinstance(t, ast.Try) and any(c in list(ast.walk(s)) for s in t.body)]
